@@ -366,7 +366,11 @@ def gamma(pred: Val, a: Val, b: Val) -> Val:
         mm = _minmax_form(pred, a, b)
         if mm is not None:
             return Num(mm, a.length, a.kind if a.kind == b.kind else 'unknown')
-        return Num(sym.A('gamma', pred, a.r, b.r), a.length, a.kind if a.kind == b.kind else 'unknown')
+        # canonical conditional: positive predicate, common part factored out:  (p ? a : b) == b + (p ? a - b : 0)
+        q_, ar, br = pred, a.r, b.r
+        if isinstance(q_, P) and q_.op == 'not':
+            q_, ar, br = q_.args[0], br, ar
+        return Num(br + sym.A('gamma', q_, ar - br, sym.C(0)), a.length, a.kind if a.kind == b.kind else 'unknown')
     return Gam(pred, a, b)
 
 
@@ -493,6 +497,8 @@ def lib_length(t: 'Term') -> Optional[Rat]:
             return _len_of(arg('a', 0) if arg('a', 0) is not None else arg('x', 0))
         elif h in ('stored', 'loopstate', 'mutated'):
             return _len_of(t.args[0])
+        elif h == 'fill' and len(t.args) == 2 and isinstance(t.args[1], Num) and t.args[1].length is None:
+            return t.args[1].r
         elif h == 'cat':
             tot = C(0)
             for part in t.args:
